@@ -18,6 +18,7 @@ import math
 
 from vf import core
 from vf.gen import reactions as RG
+from vf.gen import species as S_
 
 ID = 'C08'
 N = {'quick': 12000, 'thorough': 250000}
@@ -30,7 +31,9 @@ REQUIRED_CLASSES = ['cls:Reaction', 'cls:ChemkinReaction', 'cls:SurfaceReaction'
                     'flavor:mixed', 'flavor:empirical', 'ts:0', 'ts:1', 'ts:2', 'block', 'block:falsy_override', 'fractional',
                     'twin:same_name_other_object', 'twin:block_addressed', 'E_act:del_m=0', 'E_act:del_m=None',
                     'E_act:del_m=0:molecularity_changes', 'block:before_shared_condition', 'keq:edge_window', 'keq:edge_window:>700',
-                    'bep_ts', 'bep_ts:block', 'bep_ts:entropy_state=products', 'bep_ts:entropy_state=None']
+                    'bep_ts', 'bep_ts:block', 'bep_ts:entropy_state=products', 'bep_ts:entropy_state=None',
+                    'bep_ts:bep=omkm', 'bep_ts:bep=plain', 'bep_ts:direction_labels_differ',
+                    'hist:species_renamed', 'name:api_word', 'name:api_word:block_addressed']
 REQUIRED_PROBES = ['Reaction.get_state_quantity', 'Reaction.get_delta_quantity', '_get_specie_kwargs',
                    '_force_pass_arguments', '_get_states']
 ASSUMPTIONS = ['ChemkinReaction / SurfaceReaction are driven with empirical species only (they require a phase) '
@@ -50,7 +53,12 @@ def generate(rng, tier):
     if rng.random() < 0.06:
         return _gen_bep_ts(rng)
     spec = RG.gen_reaction(rng, twins=True)
+    if rng.random() < 0.12 and not spec.get('twin'):
+        _api_word_names(rng, spec)
     spec['cond'] = RG.gen_conditions(rng, spec)
+    if spec.get('api_word'):
+        # always address one of the API-word species with a block
+        spec['cond']['%s_kwargs' % rng.choice(spec['api_word'])] = {'P': S_.logu(rng, 1e-3, 1e2, 4)}
     if rng.random() < 0.3:
         # keyword order is the caller's business: blocks may come before the shared conditions
         items = list(spec['cond'].items())
@@ -59,6 +67,33 @@ def generate(rng, tier):
         spec['cond_order'] = 'shuffled'
     spec['keq_edge'] = rng.random() < 0.25
     return spec
+
+
+API_WORDS = ['TS', 'ts', 'reactants', 'products', 'transition_state', 'specie', 'species', 'state', 'reaction']
+
+
+def _api_word_names(rng, spec):
+    """rename 1-2 species (preferably in a state with >= 2 species) to words the API itself uses (state names ...):
+    a block '<word>_kwargs' addresses the species of that name and nothing else"""
+    sides = [spec['reactants'], spec['products']] + ([spec['ts']] if spec['ts'] else [])
+    sides.sort(key=lambda sd: -len(sd))
+    words = rng.sample(API_WORDS, 2)
+    used = []
+    for side, w in zip(sides[:rng.choice([1, 2])], words):
+        j = rng.randrange(len(side))
+        old = side[j][0]
+        if old not in spec['species'] or w in spec['species']:
+            continue
+        sp = spec['species'].pop(old)
+        sp['name'] = w
+        spec['species'][w] = sp
+        for sd in sides:
+            for item in sd:
+                if item[0] == old:
+                    item[0] = w
+        used.append(w)
+    if used:
+        spec['api_word'] = used
 
 
 def _gen_bep_ts(rng):
@@ -72,6 +107,15 @@ def _gen_bep_ts(rng):
     spec['cond'] = RG.gen_conditions(rng, spec, with_blocks=False)
     spec['bep_block'] = rng.choice([{'entropy_state': 'products'}, {'entropy_state': 'reactants'},
                                     {'entropy_state': None}, None])
+    # the reaction class and the direction labels of the OpenMKM flavours carry no thermodynamic meaning
+    spec['rx_cls'] = rng.choice(['Reaction', 'Reaction', 'SurfaceReaction', 'SurfaceReaction'])
+    if spec['rx_cls'] == 'SurfaceReaction':
+        spec['bep_cls'] = 'omkm'
+        spec['rx_direction'] = rng.choice([None, 'cleavage', 'synthesis'])
+        spec['bep_direction'] = rng.choice([None, 'cleavage', 'synthesis'])
+    else:
+        spec['bep_cls'] = rng.choice(['plain', 'omkm'])
+        spec['bep_direction'] = rng.choice([None, 'cleavage', 'synthesis']) if spec['bep_cls'] == 'omkm' else None
     spec['kind'] = 'bep_ts'
     return spec
 
@@ -130,10 +174,25 @@ def _bep_ts(spec, ctx):
     from vf.gen import species as S
     objs = {n: S.build(sp) for n, sp in spec['species'].items()}
     b = spec['bep']
-    bep = BEP(slope=b['slope'], intercept=b['intercept'], descriptor=b['descriptor'], name=b['name'])
-    rxn = Reaction(reactants=[objs[n] for n, _ in spec['reactants']], reactants_stoich=[v for _, v in spec['reactants']],
-                   products=[objs[n] for n, _ in spec['products']], products_stoich=[v for _, v in spec['products']],
-                   transition_state=[bep], transition_state_stoich=[1])
+    rx_cls, bep_cls = spec.get('rx_cls', 'Reaction'), spec.get('bep_cls', 'plain')
+    if bep_cls == 'omkm':
+        from pmutt.omkm.reaction import BEP as OmkmBEP
+        bep = OmkmBEP(slope=b['slope'], intercept=b['intercept'], descriptor=b['descriptor'], name=b['name'],
+                      direction=spec.get('bep_direction'))
+    else:
+        bep = BEP(slope=b['slope'], intercept=b['intercept'], descriptor=b['descriptor'], name=b['name'])
+    kw = dict(reactants=[objs[n] for n, _ in spec['reactants']], reactants_stoich=[v for _, v in spec['reactants']],
+              products=[objs[n] for n, _ in spec['products']], products_stoich=[v for _, v in spec['products']],
+              transition_state=[bep], transition_state_stoich=[1])
+    if rx_cls == 'SurfaceReaction':
+        from pmutt.omkm.reaction import SurfaceReaction
+        rxn = SurfaceReaction(direction=spec.get('rx_direction'), **kw)
+        ctx.cls('bep_ts:SurfaceReaction:direction=%s:bep_direction=%s' % (spec.get('rx_direction'), spec.get('bep_direction')))
+        if spec.get('rx_direction') and spec.get('bep_direction') and spec['rx_direction'] != spec['bep_direction']:
+            ctx.cls('bep_ts:direction_labels_differ')
+    else:
+        rxn = Reaction(**kw)
+    ctx.cls('bep_ts:bep=' + bep_cls)
     cond = dict(spec['cond'])
     block = spec.get('bep_block')
     if block is not None:
@@ -143,7 +202,7 @@ def _bep_ts(spec, ctx):
     ctx.nontrivial()
     snapshot = copy.deepcopy(cond)
     T = cond['T']
-    base = {'cls': 'Reaction', 'ts': 'BEP'}
+    base = {'cls': rx_cls, 'ts': 'BEP'}
     try:
         ref = {q: {st: RG.state_sum(objs, spec[st], 'get_' + q, cond) for st in ('reactants', 'products')}
                for q in ('HoRT', 'SoR')}
@@ -200,6 +259,10 @@ def run_case(spec, ctx):
     if spec.get('cond_order') == 'shuffled' and has_block and \
             list(cond).index([k for k in cond if k.endswith('_kwargs')][0]) < len(cond) - 1:
         ctx.cls('block:before_shared_condition')
+    if spec.get('api_word'):
+        ctx.cls('name:api_word')
+        if any('%s_kwargs' % w in cond for w in spec['api_word']):
+            ctx.cls('name:api_word:block_addressed')
     if spec.get('twin'):
         ctx.cls('twin:same_name_other_object')
         if '%s_kwargs' % RG.shown(spec['twin']) in cond:
@@ -425,6 +488,33 @@ def run_case(spec, ctx):
             ctx.inconc('H6', 'species getter raised', exc=repr(e)[:200])
     # --- H7: caller's dict untouched
     ctx.check('H7', cond == snapshot, dict(base, what='conditions_mutated'), before=snapshot, after=cond)
+    # --- history: a species of the live, already evaluated reaction is renamed in place; blocks are addressed by
+    #     the name the species carries NOW
+    if not spec.get('twin') and (ctx.case_index or 0) % 3 == 0:
+        key = names[(ctx.case_index or 0) % len(names)]
+        if key in objs and key in [n for n, _ in spec['reactants'] + spec['products']]:
+            new = key + '(g)'
+            ctx.cls('hist:species_renamed')
+            objs[key].name = new
+            try:
+                c_plain = {k: v for k, v in cond.items() if not k.endswith('_kwargs')}
+                c_new = dict(c_plain, **{'%s_kwargs' % new: {'P': 7.5 * cond.get('P', 1.0)}})
+                c_old = dict(c_plain, **{'%s_kwargs' % key: {'P': 7.5 * cond.get('P', 1.0)}})
+                mm = dict(base, q=X, hist='species_renamed')
+                d0 = ctx.call('H6', mm, getattr(rxn, 'get_delta_' + X), **c_plain)
+                d1 = ctx.call('H6', mm, getattr(rxn, 'get_delta_' + X), **c_new)
+                d2 = ctx.call('H6', mm, getattr(rxn, 'get_delta_' + X), **c_old)
+                if core.NOVALUE not in (d0, d1, d2):
+                    x0 = _f(RG.call_getter(objs[key], 'get_' + X, c_plain))
+                    x1 = _f(RG.call_getter(objs[key], 'get_' + X, dict(c_plain, P=7.5 * cond.get('P', 1.0))))
+                    nu = sum(v for n, v in spec['products'] if n == key) - sum(v for n, v in spec['reactants'] if n == key)
+                    ctx.close('H6', _f(d1) - _f(d0), nu * (x1 - x0), 1e-9, dict(mm, block='new_name'),
+                              scale=max(1.0, abs(_f(d0))))
+                    ctx.close('H6', _f(d2) - _f(d0), 0.0, 1e-9, dict(mm, block='old_name'), scale=max(1.0, abs(_f(d0))))
+            except Exception as e:
+                ctx.inconc('H6', 'species getter raised', exc=repr(e)[:200])
+            finally:
+                objs[key].name = key
 
 
 def rng_choice_state(ctx):
